@@ -1,3 +1,4 @@
+import Chartparse.Proofs.ChartOrder
 import Chartparse.Proofs.EventsProofs
 import Chartparse.Proofs.TrackProofs
 import Chartparse.Proofs.Hint
@@ -131,5 +132,17 @@ theorem C11_value_events :
     (l : List (Nat × Str)) (out : List ValEv) (h : buildValEvs res evs l = .ok out),
     out.map (fun e => (e.tick, e.value)) = l ∧ ∀ e ∈ out, tsAt res evs (e.tick : Int) 0 = .ok (e.ts, e.idx) :=
   @Chartparse.buildValEvs_spec
+
+/-- **C01/C11 at chart level**: every timestamped event of a returned chart carries the hint-free query of its own tick -/
+theorem C11_chart_all :
+    ∀ (secs : Sections) (want : Option (List (Nat × Nat))) (c : Chart)
+    (h : parseSections secs want = .ok c),
+    ∀ p ∈ timed c, ∃ g, tsAt c.res c.sync.bpms (p.1 : Int) 0 = .ok (p.2, g) :=
+  @Chartparse.timed_query
+
+theorem C11_from_file :
+    ∀ (text : Str) (want : Option (List (Nat × Nat))) (c : Chart) (h : parseChart text want = .ok c),
+    ∀ p ∈ timed c, ∃ g, tsAt c.res c.sync.bpms (p.1 : Int) 0 = .ok (p.2, g) :=
+  @Chartparse.text_timed_query
 
 end Chartparse.Props.C11
